@@ -124,8 +124,29 @@ def _pop_var(suffix=''):
     return '(%s/S_n - (%s/S_n)**2)' % (s2, s1)
 
 
+EPS_RULE = ('the variance floor `tea_core::prelude::EPS` is a positive rounding threshold no larger than the '
+            'confirmed 1e-14: every one-pass variance / skewness / kurtosis / correlation treats a series whose '
+            'population variance is at or below it as constant (0, or null), so a larger value replaces the '
+            'textbook result of genuinely varying small-scale data')
+EPS_MAX = 1e-14
+
+
+def check_eps(run, F):
+    """EPS.value: the compile-time value of the floor constant (evaluated by rustc, read from the facts)"""
+    import struct
+    run.rule('EPS.value', EPS_RULE)
+    bits = F.const_value('prelude::EPS')
+    if bits is None:
+        run.ob('EPS.value', 'tea_core::prelude::EPS', 'floor constant', False, '', 'constant not found in the facts')
+        return
+    v = struct.unpack('<d', struct.pack('<Q', bits & (2 ** 64 - 1)))[0]
+    run.ob('EPS.value', 'tea_core::prelude::EPS', 'floor constant', 0.0 < v <= EPS_MAX, 'tea-core/src/prelude.rs',
+           'EPS = %r (confirmed bound %r)' % (v, EPS_MAX))
+
+
 def check_floors(run, F, files):
     """VAR.floor over the rolling kernels of the given files."""
+    check_eps(run, F)
     from facts import strip_generics
     jobs, meta = [], {}
     for k in find_kernels(F):
